@@ -302,6 +302,60 @@ class VpHook : public Oomd::Engine::PrekillHook {
   int fires_{0};
 };
 
+// vp_typed: declares one argument of every type PluginArgParser supports,
+// through the real parser, and logs what arrived (C12: 64-bit and fractional
+// values must arrive unchanged).
+class VpTyped : public Oomd::Engine::BasePlugin {
+ public:
+  static VpTyped* create() {
+    return new VpTyped();
+  }
+  int init(
+      const Oomd::Engine::PluginArgs& args,
+      const Oomd::PluginConstructionContext& /*context*/) override {
+    argParser_.addArgument("i", i_);
+    argParser_.addArgument("l", l_);
+    argParser_.addArgument("d", d_);
+    argParser_.addArgument("f", f_);
+    argParser_.addArgument("ms", ms_);
+    argParser_.addArgument("b", b_);
+    argParser_.addArgument("s", s_);
+    argParser_.addArgument("r", r_);
+    argParser_.addArgumentCustom("u", u_, Oomd::PluginArgParser::parseUnsignedInt);
+    bool ok = (bool)argParser_.parse(args);
+    Ev e;
+    e.k = "plugin";
+    e.s = "typed_init";
+    e.ret = ok ? 0 : 1;
+    e.j["i"] = i_;
+    e.j["l"] = (Json::Int64)l_;
+    e.j["d"] = d_;
+    e.j["f"] = (double)f_;
+    e.j["ms"] = (Json::Int64)ms_.count();
+    e.j["b"] = b_;
+    e.j["s"] = s_;
+    e.j["r"] = r_ == Oomd::ResourceType::IO ? "io" : "memory";
+    e.j["u"] = u_;
+    g.log(e);
+    return ok ? 0 : 1;
+  }
+  PluginRet run(Oomd::OomdContext& /*ctx*/) override {
+    return PluginRet::CONTINUE;
+  }
+
+ private:
+  int i_{0};
+  int64_t l_{0};
+  double d_{0};
+  float f_{0};
+  std::chrono::milliseconds ms_{0};
+  bool b_{false};
+  std::string s_;
+  Oomd::ResourceType r_{Oomd::ResourceType::MEMORY};
+  int u_{0};
+};
+
+REGISTER_PLUGIN(vp_typed, VpTyped::create);
 REGISTER_PLUGIN(vp_detector, VpDetector::create);
 REGISTER_PLUGIN(vp_action, VpAction::create);
 REGISTER_PLUGIN(vp_probe, VpProbe::create);
